@@ -82,10 +82,10 @@ theorem validAxes_trailing (m k : Nat) : ValidAxes (m + k) (some (trailingAxes k
     rw [← List.range'_eq_map_range]
     exact List.nodup_range' 
 
-/-- the group of `i` when the last `k` axes of a rank-`m+k` shape are reduced: its block over the trailing axes -/
-theorem grp_trailing (s : Shape) (m k : Nat) (hl : s.length = m + k) (i : Idx) (hi : InShape i s) :
-    grp s (axisSet s.length (some (trailingAxes k))) i = blockOf s m i := by
-  rw [hl, axisSet_trailing, grp_eq_groupL s _ i hi, ← groupL_trailing m s 0 i hi (by omega)]
+/-- the group of `i` when the axis set is the trailing block `m .. m+k−1` of a rank-`m+k` shape -/
+theorem grp_block (s : Shape) (m k : Nat) (hl : s.length = m + k) (R : List Nat) (hR : R = (List.range k).map (m + ·))
+    (i : Idx) (hi : InShape i s) : grp s R i = blockOf s m i := by
+  rw [hR, grp_eq_groupL s _ i hi, ← groupL_trailing m s 0 i hi (by omega)]
   apply groupL_congr
   intro j _ hj
   simp only [List.mem_map, List.mem_range, Nat.zero_add]
@@ -93,6 +93,11 @@ theorem grp_trailing (s : Shape) (m k : Nat) (hl : s.length = m + k) (i : Idx) (
   constructor
   · rintro ⟨a, _, rfl⟩; omega
   · intro h; exact ⟨j - m, by omega, by omega⟩
+
+/-- the group of `i` when the last `k` axes of a rank-`m+k` shape are reduced: its block over the trailing axes -/
+theorem grp_trailing (s : Shape) (m k : Nat) (hl : s.length = m + k) (i : Idx) (hi : InShape i s) :
+    grp s (axisSet s.length (some (trailingAxes k))) i = blockOf s m i :=
+  grp_block s m k hl _ (by rw [hl, axisSet_trailing]) i hi
 
 theorem blockOf_append (lead ns p q : List Nat) (hp : p.length = lead.length) :
     blockOf (lead ++ ns) lead.length (p ++ q) = (allIdx ns).map (p ++ ·) := by
